@@ -10,6 +10,7 @@ patterns):
 * `idxA`, `idxB` — the index an operand has under an aliasing pattern in the general placement `c a b`;
 * `ag1 … agAA` — the canonical stores of `Wrap.lean` agree (through `rho`) with ANY store holding the operands;
 * `place_get3`, `place_get2`, `place_flag`, `place_opt` — `place`/`placeT` packaged for the four result kinds;
+* `run1_anywhere` — `place_get3` + `ag1` for the wrapper `run1`, generic in the program;
 * `optRes`, `optRes_spec`, `optRes_none` — the `Option`-valued wrappers (`toa`, `runAA`) read as flag + output;
 * tactic macros `inj_w` (hypothesis `hinj` by `rho_inj_w` + `omega`), `place_map`, `place_map2` (the renamed
   canonical program is the program at the new indices, for ecp.c / ec2.c).
@@ -274,6 +275,20 @@ theorem optRes_spec {r : Store F × Bool} {c : Nat} {o : Option (P2 F)} (e : opt
 
 end
 
+/-- `place_get3` for the wrapper `run1` (two-address projective routines).  The program is a VARIABLE here, so
+    that unfolding `run1` does not start evaluating it (the straight-line `ecpTplJ` has 47 instructions). -/
+theorem run1_anywhere {F : Type} (f : Fld F) (cv : Curve F) (hf : cv.f = f)
+    (prog : Nat → Nat → Nat → Prog) (al : Al) (hal : al = .n ∨ al = .ca)
+    {c a b s a' : Nat} (ha' : idxA al c a = a') {S : Nat → Bool} {P' : Prog}
+    (hmap : (prog 2 (slotA al) 11).map (rho c a b s) = P')
+    (hinj : ∀ i j, S i = true → S j = true → rho c a b s i = rho c a b s j → i = j)
+    (hregs : (prog 2 (slotA al) 11).regsIn S = true) (hout : (S 2 && S 3 && S 4) = true)
+    (hwd : (prog 2 (slotA al) 11).wellDef [2, 3, 4] (D1 al) = true)
+    {st : Store F} (hA : st.get rA = cv.A) (hB : st.get rB = cv.B) :
+    get3 (P'.run f st).1 c = run1 cv prog al (get3 st a') := by
+  subst hf ha'
+  exact place_get3 _ hmap hinj hregs hout hwd (ag1 al hal hA hB)
+
 theorem optRes_none {F : Type} {r : Store F × Bool} {c : Nat} (e : optRes r c = none) : r.2 = false := by
   unfold optRes at e
   cases hb : r.2
@@ -290,12 +305,12 @@ macro "inj_w" : tactic => `(tactic| (apply rho_inj_w <;> omega))
 macro "place_map" : tactic => `(tactic|
   simp [ecpFromAJ, ecpToAJ, ecpNegJ, ecpDblJ, ecpDblJA3, ecpDblAJ, ecpAddJ, ecpAddAJ, ecpSubJ, ecpSubAJ,
     ecpTplJ, ecpTplJA3, ecpIsOnA, ecpNegA, ecpAATail, ecpAATangent, ecpAddAA, ecpSubAA,
-    Prog.map, Prog.map_block, Instr.map, rho, cX, cY, cZ, rA, rB, Nat.add_assoc, *])
+    Prog.map, Prog.map_block, Instr.map, rho, slotA, slotB, sc, sa, sb, sk, cX, cY, cZ, rA, rB, Nat.add_assoc, *])
 
 /-- the same for the programs of `Ec2.lean` -/
 macro "place_map2" : tactic => `(tactic|
   simp [ec2FromALD, ec2ToALD, ec2NegLD, ec2DblLDTail, ec2DblLD, ec2DblALDTail, ec2DblALD, ec2AddLD,
     ec2AddALDTail, ec2AddALD, ec2SubLD, ec2SubALD, ec2IsOnA, ec2NegA, ec2AddAA, ec2SubAA,
-    Prog.map, Prog.map_block, Instr.map, rho, cX, cY, cZ, rA, rB, Nat.add_assoc, *])
+    Prog.map, Prog.map_block, Instr.map, rho, slotA, slotB, sc, sa, sb, sk, cX, cY, cZ, rA, rB, Nat.add_assoc, *])
 
 end Bee2V.C06
